@@ -11,6 +11,8 @@ F14 = dict(pkg="./cache/disk", test="TestVerifScenarioTwoReadersCorrupt", name="
 BLOB = dict(pkg="./cache/disk/casblob", test="TestVerifBlobCorrespondence", name="blob", diff=True, also=["C01", "C14", "C02", "C20"])
 BLOBREAL = dict(pkg="./cache/disk/casblob", test="TestVerifBlobRealCodec", name="blobreal", diff=False)
 
+DISK = dict(pkg="./cache/disk", test="TestVerifDiskCorrespondence", name="disk", diff=True)
+
 COMMON_TB = [
     "goroutine scheduling, sync.Mutex and the file system are modelled (atomic lock regions, process-visible file state), not verified",
 ]
@@ -20,16 +22,16 @@ TECH = "Lean 4 theorems over an executable model + regenerated Gen/Bridge facts 
 
 PROPS = {
     "C03": dict(
-        lean="BR.Props.C03", runs=[LRU, F14], trusted_base=COMMON_TB,
+        lean="BR.Props.C03", runs=[LRU, F14, DISK], trusted_base=COMMON_TB,
         assumptions=["item sizes and max_size below 2^62 so that roundUp4k and Add's additions do not wrap int64"],
         level_text="Invariant (currentSize = reserved + sum of 4 KiB-rounded entries <= maxSize, logical total, entry count) proved by induction for every finite sequence of LRU operations of model M1; model checked against SizedLRU op by op.",
         level_note=NOTE + "concurrency enters through the atomic-lock-region assumption.", technique=TECH),
     "C05": dict(
-        lean="BR.Props.C05", runs=[LRU], trusted_base=COMMON_TB, assumptions=[],
+        lean="BR.Props.C05", runs=[LRU, DISK], trusted_base=COMMON_TB, assumptions=[],
         level_text="Theorems on M1: evicted entries are a least-recently-used suffix, no eviction when the item fits, minimal eviction, move-to-front on hits, oversize rejection leaves the state unchanged.",
         level_note=NOTE + "sequential histories.", technique=TECH),
     "C17": dict(
-        lean="BR.Props.C17", runs=[LRU], trusted_base=COMMON_TB, assumptions=[],
+        lean="BR.Props.C17", runs=[LRU, DISK], trusted_base=COMMON_TB, assumptions=[],
         level_text="Theorems on M1's Reserve: refusal iff current + backlog + size exceeds the hard limit, refusal leaves the state unchanged, retry succeeds after the backlog drained, no refusal when the option is off.",
         level_note=NOTE + "the uint64 sum is modelled exactly.", technique=TECH),
     "C02": dict(
@@ -42,6 +44,24 @@ PROPS = {
         lean="BR.Props.C20", runs=[BLOB, BLOBREAL], trusted_base=COMMON_TB, assumptions=[],
         level_text="Header encode/parse round trip and reader conformance theorems on M2; layout constants, file-name shapes and regexps regenerated from the source and compared by Bridge theorems; files from an independent encoder/reader in the harness.",
         level_note=NOTE + "published layout written once in Lean as the specification.", technique=TECH),
+    "C01": dict(
+        lean="BR.Props.C01", runs=[BLOB, BLOBREAL, DISK], trusted_base=COMMON_TB + ["SHA-256 as an opaque function H; zstd codec as a parameter"],
+        assumptions=[],
+        level_text="Theorems on M2/M4: WriteAndClose / Put acknowledge iff the delivered bytes have the declared length and hash and the stream ended cleanly; a rejected upload leaves index and directory unchanged; per-path corollaries for the server front ends.",
+        level_note=NOTE + "server paths are tied by the server-level correspondence runs.", technique=TECH),
+    "C04": dict(
+        lean="BR.Props.C04", runs=[DISK, F14], trusted_base=COMMON_TB, assumptions=["tempfile.Create returns a name not present in the directory (O_EXCL)"],
+        level_text="Invariant on M4 proved for every sequential history with failures injected at every stage: the regular files are exactly the files of indexed entries plus those queued for removal, each with the recorded length; after draining, directory = index.",
+        level_note=NOTE + "concurrent histories via the atomic-lock-region assumption (C07).", technique=TECH),
+    "C12": dict(
+        lean="BR.Props.C12", runs=[DISK], trusted_base=COMMON_TB + ["transport code of the concrete back ends (net/http, grpc, minio, azure SDK) is not modelled"],
+        assumptions=["the back end is trusted for content it completely delivers"],
+        level_text="Theorems on M4's proxy read-through: a hit carries exactly the back end's bytes with the announced size; every fault (error, not found, short/long stream, wrong or unknown size, oversize) yields a miss or an error, stores nothing and releases the reservation; each accepted upload is forwarded once.",
+        level_note=NOTE + "partial: back-end transport libraries outside the model.", technique=TECH),
+    "C18": dict(
+        lean="BR.Props.C18", runs=[DISK], trusted_base=COMMON_TB, assumptions=[],
+        level_text="Theorems on M4: Put refuses sizes above max_blob_size with a client error and unchanged state, accepts the limit itself; nothing above max_proxy_blob_size is fetched, cached or reported present on the strength of the back end.",
+        level_note=NOTE + "handler-level guards tied by server correspondence runs.", technique=TECH),
 }
 
 _root = os.path.dirname(os.path.dirname(os.path.abspath(__file__)))
